@@ -132,7 +132,7 @@ def escalate(chk, names):
 
 
 def run():
-    chk = Check("C02", props_modules=["GFO.Props.C02", "GFO.Props.LocalRuns", "GFO.Props.PopRuns", "GFO.Props.EvoRuns", "GFO.Props.PatternRuns", "GFO.Props.PowellRuns", "GFO.Props.SimplexRuns", "GFO.Props.DirectRuns", "GFO.Props.SmboPosRuns", "GFO.Props.InitSpace", "GFO.Props.GridRuns", "GFO.Gen.InitGenCheck", "GFO.Gen.CoreGenCheck", "GFO.Gen.LocalGenCheck", "GFO.Gen.PopIterGenCheck", "GFO.Gen.PatternGenCheck", "GFO.Gen.PowellGenCheck"], gen_steps=(translators.gen_init, translators.gen_core, translators.gen_local, translators.gen_popiter, translators.gen_pattern, translators.gen_powell))
+    chk = Check("C02", props_modules=["GFO.Props.C02", "GFO.Props.LocalRuns", "GFO.Props.PopRuns", "GFO.Props.EvoRuns", "GFO.Props.PatternRuns", "GFO.Props.PowellRuns", "GFO.Props.SimplexRuns", "GFO.Props.DirectRuns", "GFO.Props.SmboPosRuns", "GFO.Props.InitSpace", "GFO.Props.GridRuns", "GFO.Gen.InitGenCheck", "GFO.Gen.CoreGenCheck", "GFO.Gen.LocalGenCheck", "GFO.Gen.PopIterGenCheck", "GFO.Gen.PatternGenCheck", "GFO.Gen.PowellGenCheck"], gen_steps=(translators.gen_init, translators.gen_core, translators.gen_local, translators.gen_popiter, translators.gen_pattern, translators.gen_powell, translators.gen_pins))
     chk.build_and_audit()
     r = C.rng("C02")
     quick = C.tier() != "thorough"
